@@ -47,7 +47,7 @@ def base_scripts(rng, k):
 
 def stages(tier, seed, witness_search=False):
     rng = Rng(seed)
-    k = 40 if tier == "quick" else 600
+    k = 40 if tier == "quick" else 350
     if witness_search:
         k *= 3
     scripts = replicate(base_scripts(rng, k))
